@@ -597,7 +597,7 @@ func genomeChain(c *enum.Ctx) {
 
 func run(c *enum.Ctx) {
 	genomeChain(c)
-	c.Rule("layouts: every set of <=3 intervals inside [0,L] (L=5 quick, 6 thorough; accepted and rejected sets alike) in 3 input orders x CDS bounds x orientation at transcript/gene/chromosome level x offsets {0,3} x coding/non-coding; chains of depth 1,2,3,999,1000; a gene on a genome.Fragment (component used from its first or its eighth letter) on a genome.Chromosome; conversions on -6..6 and the int extremes; transcripts of 2..40 and 2^k-1, 2^k, 2^k+1 (63..257) exons with an exon added inside an intron, from an intron into the next exon, from inside an exon, and filling an intron; histories: BFS over sequences of <=3 (thorough 4) operations from 16 accepted/rejected SetExons/Add operations (SetExons also of the transcript's own exon slice extended with append) with spare capacity 0 and 2, on a coding and a non-coding transcript, de-duplicated on the model exon set, compared with a plain model (exon set, introns, extent) after every operation; non-trivial = accepted layouts and all histories")
+	c.Rule("layouts: every set of <=3 intervals inside [0,L] (L=5 quick, 6 thorough; accepted and rejected sets alike) in 3 input orders x CDS bounds x orientation at transcript/gene/chromosome level x offsets {0,3} x coding/non-coding; chains of depth 1,2,3,999,1000; a gene on a genome.Fragment (component used from its first or its eighth letter) on a genome.Chromosome; conversions on -6..6 and the int extremes; transcripts of 2..40 and 2^k-1, 2^k, 2^k+1 (also 3*2^k, 10^j-1, 10^j, 10^j+1, 5*10^j) (63..257) exons with an exon added inside an intron, from an intron into the next exon, from inside an exon, and filling an intron; histories: BFS over sequences of <=3 (thorough 4) operations from 16 accepted/rejected SetExons/Add operations (SetExons also of the transcript's own exon slice extended with append) with spare capacity 0 and 2, on a coding and a non-coding transcript, de-duplicated on the model exon set, compared with a plain model (exon set, introns, extent) after every operation; non-trivial = accepted layouts and all histories")
 	L := 5
 	depth := 3
 	if !c.Quick {
@@ -670,7 +670,7 @@ func run(c *enum.Ctx) {
 	}
 	do(kase{Kind: "conv", Pos: int(^uint(0)>>1) - 1})
 	do(kase{Kind: "conv", Pos: -int(^uint(0)>>1) - 1})
-	// the size ladder of the exon count: transcripts of 2^k-1, 2^k, 2^k+1 exons (7..257), exons added in the
+	// the size ladder of the exon count: transcripts of 2^k-1, 2^k, 2^k+1 (also 3*2^k, 10^j-1, 10^j, 10^j+1, 5*10^j) exons (7..257), exons added in the
 	// first, a middle and the last intron
 	var counts []int
 	for n := 2; n <= 40; n++ { // every small count (the capacity append leaves differs from count to count)
